@@ -135,3 +135,14 @@ def setup_feature_builds():
             print(b.stderr[-2000:])
             return 2
     return 0
+
+
+TANTIVY_BIN = os.path.join(ROOT, "target", "tantivy", "release", "vtantivy")
+
+
+def build_tantivy():
+    b = subprocess.run(["cargo", "build", "--release", "--offline"], cwd=os.path.join(ROOT, "harness-tantivy"), capture_output=True, text=True, env=ENV)
+    if b.returncode != 0:
+        print(b.stderr[-3000:])
+        return 2
+    return 0
